@@ -132,6 +132,18 @@ theorem mint_exact (P : Params) (s : DB) :
 
 end Pegnet.C15
 
+namespace Pegnet.C15
+open Pegnet
+/-- the shipped schedule, regenerated from config/activations.go and fat/fat2/activations.go on every
+    run, against the values this property was read with: the heights of the developer rewards and of the one-time adjustments. Every scenario of the harness
+    runs on a compressed schedule that overwrites these constants, so nothing else would notice one of
+    them moving; a moved height is a different protocol, not a rewrite. -/
+theorem shipped_schedule :
+    let a := Generated.activations
+    Generated.activationsComplete = true ∧ a.devRewards = 260118 ∧ a.v202 = 274036 ∧ a.v204 = 288878 ∧ a.v204Burn = 294206 := by
+  decide
+end Pegnet.C15
+
 #print axioms Pegnet.C15.dev_table_total
 #print axioms Pegnet.C15.dev_reward_formula
 #print axioms Pegnet.C15.dev_cadence_off
@@ -146,3 +158,4 @@ end Pegnet.C15
 #print axioms Pegnet.C15.passed_height_was_committed
 #print axioms Pegnet.C15.developer_payout_exact
 #print axioms Pegnet.C15.mint_exact
+#print axioms Pegnet.C15.shipped_schedule
